@@ -620,8 +620,7 @@ Theorem squash_cli_roundtrip (o : opts) (tables : list string) (key : string) (t
   buildable t = true -> inner_doc_free t = true -> renorm_tree t = t ->
   exists st, build_key_from_iter [] key t = Ok st /\
     to_markdown o tables (cli_patch st key) key = Ok (tree_to_markdown o tables (key_parent key) t) /\
-    (heading_overflow t = false ->
-     to_markdown (Opts "") [] (cli_patch st key) key = squash_cli_text key t).
+    to_markdown (Opts "") [] (cli_patch st key) key = squash_cli_text key t.
 Proof.
   intros Hb Hd Hn. destruct (patch_export_is_export_tree o tables [] key t eq_refl Hb Hd) as (st & H & E).
   exists st. split; [exact H|].
@@ -630,7 +629,7 @@ Proof.
     rewrite H in H'. inversion H'; subst st'.
     rewrite (E2 (cli_patch st key) eq_refl); [|cbn; now rewrite String.eqb_refl | reflexivity].
     unfold export_tree. cbn [cli_patch gr_meta alookup wrap_metadata]. now rewrite Hn. }
-  split; [apply E'|]. intros Ho. unfold squash_cli_text. rewrite Ho. apply E'.
+  split; [apply E'|]. unfold squash_cli_text. apply E'.
 Qed.
 Print Assumptions squash_cli_roundtrip.
 
